@@ -43,6 +43,10 @@ func runC14(p *core.Program, r *core.Report) {
 	r.Rule("C14.serial", "GetBytes ~ BuildHyperLogLog agree on the layout", 1)
 	r.Rule("C14.estimate-pure", "Cardinality() is a function of the registers: it (and the helpers it calls on the counter) assigns no field of the counter, so no estimate survives a later change of the registers", 1)
 	c14EstimatePure(p, r)
+	r.Rule("C14.args", "no call passes two same-typed variables in each other's parameter position (precision and register count are both uint32)", 0)
+	swappedArgsLint(p, r, "C14.args", []string{"util/hll"})
+	r.Rule("C14.hash-width", "a hash is offered to the index/rank routine of its own width: no widened hash (uint64 of a 32-bit value) reaches a routine that addresses by the top bits", 1)
+	c14HashWidth(p, r)
 	r.Rule("C14.shifts", "no constant shift is as wide as its operand (the hash's high half is taken from the 64-bit value, not from a narrowed copy)", 3)
 	shiftWidthLint(p, r, "C14.shifts", []string{"util/hll"})
 	r.Rule("C14.widen", "estimator arithmetic widens before it multiplies: no float64/int64 conversion of a product or shift computed in a 32-bit integer type (m*m wraps at log2m = 16)", 1)
@@ -1133,4 +1137,89 @@ func c14EstimatePure(p *core.Program, r *core.Report) {
 		}
 	}
 	fileProbs(r, "C14.estimate-pure", c, pos, uniq(probs), "the stored estimate is invalidated by every method that changes the registers")
+}
+
+// c14HashWidth: the register index is the TOP log2m bits of the hash. A 32-bit hash converted to
+// uint64 has its top 32 bits clear, so the 64-bit routine would put every item into register 0.
+// Every call in util/hll of a function whose parameter is shifted right by (W - something) — a
+// top-bits extraction — must pass a value that was not widened by a conversion.
+func c14HashWidth(p *core.Program, r *core.Report) {
+	pk := p.Pkg("util/hll")
+	if pk == nil {
+		return
+	}
+	// functions extracting top bits of a parameter: p >> (K - x)
+	topBits := map[*types.Func]int{} // -> parameter index
+	for _, fi := range p.Funcs {
+		if fi.Pkg != pk || fi.Decl.Body == nil || fi.Decl.Type.Params == nil {
+			continue
+		}
+		info := fi.Pkg.TypesInfo
+		ast.Inspect(fi.Decl.Body, func(n ast.Node) bool {
+			be, ok := n.(*ast.BinaryExpr)
+			if !ok || be.Op != token.SHR {
+				return true
+			}
+			sub, ok := ast.Unparen(be.Y).(*ast.BinaryExpr)
+			if !ok || sub.Op != token.SUB {
+				return true
+			}
+			if _, isConst := constIntOf(info, sub.X); !isConst {
+				return true
+			}
+			id, ok := ast.Unparen(stripConvs(info, be.X)).(*ast.Ident)
+			if !ok {
+				return true
+			}
+			if pi := paramIndex(fi, info.ObjectOf(id)); pi >= 0 {
+				topBits[fi.Obj] = pi
+			}
+			return true
+		})
+	}
+	n := 0
+	for _, fi := range p.Funcs {
+		if fi.Pkg != pk || fi.Decl.Body == nil {
+			continue
+		}
+		info := fi.Pkg.TypesInfo
+		var probs []string
+		calls := 0
+		ast.Inspect(fi.Decl.Body, func(m ast.Node) bool {
+			call, ok := m.(*ast.CallExpr)
+			if !ok {
+				return true
+			}
+			fn := calleeFunc(info, call)
+			pi, isTop := topBits[fn]
+			if fn == nil || !isTop || pi >= len(call.Args) {
+				return true
+			}
+			calls++
+			arg := ast.Unparen(call.Args[pi])
+			if conv, ok := arg.(*ast.CallExpr); ok && len(conv.Args) == 1 {
+				if tv, ok := info.Types[conv.Fun]; ok && tv.IsType() {
+					from, to := info.TypeOf(conv.Args[0]), tv.Type
+					fb, ok1 := from.Underlying().(*types.Basic)
+					tb, ok2 := to.Underlying().(*types.Basic)
+					if ok1 && ok2 && fb.Info()&types.IsInteger != 0 && tb.Info()&types.IsInteger != 0 {
+						sizes := types.SizesFor("gc", "amd64")
+						if sizes.Sizeof(from) < sizes.Sizeof(to) {
+							if _, isConst := constIntOf(info, conv.Args[0]); !isConst {
+								probs = append(probs, fmt.Sprintf("%s: %s addresses registers by the top bits of its %d-bit argument, and is given `%s`, a %d-bit value widened by conversion: its top bits are always zero, every item lands in register 0", p.Pos(call.Pos()), fn.Name(), 8*sizes.Sizeof(to), types.ExprString(arg), 8*sizes.Sizeof(from)))
+							}
+						}
+					}
+				}
+			}
+			return true
+		})
+		if calls > 0 {
+			n++
+			fileProbs(r, "C14.hash-width", core.FuncName(fi.Obj), p.Pos(fi.Decl.Pos()), probs, "hashes reach the top-bits routine at their own width")
+		}
+	}
+	if n == 0 {
+		r.Info("C14.hash-width", "util/hll", "-", "no call of a top-bits routine")
+	}
 }
